@@ -74,6 +74,10 @@ func RejectsOnly(t Test, failVals map[ssa.Value]bool, boolFail *bool) bool {
 		return false
 	}
 	fn := t.If.Parent()
+	if failVals != nil && t.Value != nil {
+		bad, n := FailEdgeBadReturns(t, t.Value, ErrNonNil, map[*ssa.BasicBlock]bool{t.If.Block(): true}, boolFail)
+		return n > 0 && len(bad) == 0
+	}
 	r := reach([]*ssa.BasicBlock{t.Fail}, map[*ssa.BasicBlock]bool{t.If.Block(): true}, nil)
 	any := false
 	for _, ret := range Returns(fn) {
